@@ -11,6 +11,8 @@ import (
 	"io"
 	"math/big"
 	"os"
+	"path/filepath"
+	"runtime"
 	"sort"
 	"strings"
 	"sync"
@@ -154,6 +156,55 @@ func verdictOK(err error, broken []string) bool {
 		return len(broken) == 0
 	}
 	return len(intersect(names, broken)) > 0
+}
+
+// guard runs fn, which calls into btcd.  A panic raised inside the code under
+// test is an outcome the property forbids and is reported as a VIOLATION with
+// the key "panic:<site>"; a panic of the harness itself is handed on (it is an
+// infrastructure failure, never a verdict).  input describes the case for the
+// replay file.
+func guard(c *vrun.Ctx, site string, input func() any, fn func()) (harnessPanic error) {
+	defer func() {
+		r := recover()
+		if r == nil {
+			return
+		}
+		pcs := make([]uintptr, 64)
+		n := runtime.Callers(2, pcs)
+		frames := runtime.CallersFrames(pcs[:n])
+		var trace []string
+		inBtcd, decided := false, false
+		for {
+			f, more := frames.Next()
+			trace = append(trace, fmt.Sprintf("%s (%s:%d)", f.Function, filepath.Base(f.File), f.Line))
+			if !decided {
+				switch {
+				case strings.HasPrefix(f.Function, "github.com/btcsuite/"):
+					inBtcd, decided = true, true
+				case strings.HasPrefix(f.Function, "verif/harness/"):
+					decided = true
+				}
+			}
+			if !more || len(trace) >= 24 {
+				break
+			}
+		}
+		if !inBtcd {
+			harnessPanic = fmt.Errorf("panic in harness (%s): %v\n%s", site, r, strings.Join(trace, "\n"))
+			return
+		}
+		var in any
+		func() {
+			defer func() { recover() }()
+			if input != nil {
+				in = input()
+			}
+		}()
+		c.Violation("panic:"+site, fmt.Sprintf("the btcd code panicked during %s: %v", site, r),
+			map[string]any{"input": in, "panic": fmt.Sprint(r), "stack": trace})
+	}()
+	fn()
+	return nil
 }
 
 var sampled sync.Map
